@@ -20,7 +20,7 @@ RULE = (
     "with F re-implemented in numpy and sim_k recomputed from the analytic probe; configurations with unequal extents or a "
     "range exceeding the target must raise before the first probe evaluation, configurations with equal extents must not be "
     "refused. Part 'run': re-simulating /champion/parameters reproduces /champion/fitness, /simulated/* and /full_size/*, and "
-    "the champion fitness never increases over evolutions. Non-trivial: a sub-range or shifted range, or >=2 targets, or "
+    "the champion fitness never increases over evolutions (sade, sga, and NLopt with every selection / replacement policy over 2..5 evolutions). Non-trivial: a sub-range or shifted range, or >=2 targets, or "
     "weights; distinct by canonical JSON."
 )
 ASSUMPTIONS = ["relative tolerance 1e-9 on fitness values (numba kernels, summation order)", "synchronous dask scheduler"]
@@ -300,6 +300,12 @@ def run_cases(draw):
     c["evolutions"] = draw(st.integers(1, 3))
     c["pygmo_seed"] = draw(st.integers(0, 100000))
     c["rewrite_targets"] = draw(st.sampled_from([False, False, True]))
+    # the optimiser: sade, sga, or NLopt working on the best / the worst / a random individual and replacing the best / worst / a random one
+    # (with 'random' or 'worst' the best point ever seen can leave the population: the reported champion must stay that best point)
+    c["algo"] = draw(st.sampled_from(["sade", "sade", "sga", "nlopt", "nlopt"]))
+    if c["algo"] == "nlopt":
+        c["nlopt_selection"], c["replacement"] = draw(st.sampled_from(["best", "random", "random", "worst"])), draw(st.sampled_from(["best", "best", "worst", "random"]))
+        c["evolutions"] = draw(st.integers(2, 5))
     c["range_entry"] = draw(st.sampled_from(["ctor", "ctor", "setter", "override"]))
     # a stochastic pipeline made reproducible by the declared pipeline_seed: the figure of merit and the returned data are those of the seeded run
     if draw(st.booleans()):
@@ -326,7 +332,11 @@ def body_run(case, rec):
 
 
 def _run_once(case, rec, where):
-    spec, targets, warrays = _spec(case, rec.tmp, algo={"type": "sade", "generations": 2, "population_size": 8},
+    algo = {"type": case.get("algo", "sade"), "generations": 2, "population_size": 8}
+    if algo["type"] == "nlopt":
+        algo.update({"nlopt_solver": "neldermead", "maxeval": 12, "nlopt_selection": case["nlopt_selection"], "replacement": case["replacement"]})
+    rec.cls("run:algo:" + algo["type"] + (f":{case['nlopt_selection']}/{case['replacement']}" if algo["type"] == "nlopt" else ""))
+    spec, targets, warrays = _spec(case, rec.tmp, algo=algo,
                                    pygmo_seed=case["pygmo_seed"], num_islands=case["islands"], num_evolutions=case["evolutions"])
     res = None
     entry = case.get("range_entry", "ctor") if case["target_fit_range"] is not None else "ctor"
